@@ -67,41 +67,88 @@ def run(chk: harness.Check):
     d8_locale(chk, F)
 
 
+def _tuple_alternatives(e):
+    """`let (a, b) = match .. { .. => (x, y), .. => (z, w) }; test(a)`: the argument resolves to φ(tuple(x, y) | tuple(z, w)).0 —
+    distribute the field projection over the alternatives so that the lineage of `a` does not mention `y` / `w`."""
+    while e[0] in ("ref", "deref") or (e[0] == "place" and e[2] and e[2][0] == "*" and len(e[2]) == 1):
+        e = e[1]
+    proj = tuple(p for p in (e[2] if e[0] == "place" else ()) if p != "*")
+    if e[0] == "place" and e[1][0] == "phi" and len(proj) == 1 and proj[0] in (".0", ".1"):
+        idx = int(proj[0][1:])
+        out = []
+        for alt in e[1][1]:
+            a = alt
+            while a[0] == "ref":
+                a = a[1]
+            if a[0] == "agg" and a[1] == "tuple" and len(a[4]) > idx:
+                out.append(a[4][idx][1])
+            else:
+                out.append(("place", alt, e[2]))
+        return out
+    return [e]
+
+
 def d8_locale(chk, F):
     """'locale as `ll` or `ll_CC`; a value outside the documented forms gives a warning and nothing from the accessor':
-    value_as_locale returns Ok only under a successful two-letter test of the language part, and an Ok that can carry a
-    dialect additionally lies under a successful test of the dialect part (an invalid dialect is an error, it is not dropped);
-    the test itself compares the length with 2 and checks every char with is_ascii_alphabetic."""
+    no path of value_as_locale reaches an accepting result (`Ok((lang, dial))`, or `Some((lang, dial))` turned into the result by
+    ok_or) without a successful two-letter test of the language part, and — when the result can carry a dialect — without a
+    successful test of the dialect part (an invalid dialect is an error, it is not dropped). Path-sensitive: hoisted bools,
+    `&&` chains, match guards and `Option::map_or(true, test)` are followed. The test itself compares the length with 2 and
+    checks every char with is_ascii_alphabetic."""
+    from cfgq import path_without_success
     R = "C13.D8-locale"
     fs = [g for g in F.find("metadata::value_as_locale") if not g.is_closure()]
     if len(fs) != 1:
         chk.fail("anchor-missing", "value_as_locale", "", "anchor-missing: metadata::value_as_locale not found")
         return
     f = fs[0]
-    vcalls = calls_to(f, "value_as_locale::validate")
-    chk.floor(R, "validate calls in value_as_locale", len(vcalls), 1, f"{f.file}:{f.line}")
-    true_edges = {}
-    for b, t in vcalls:
-        te, fe = call_result_edges(f, b)
-        true_edges[b] = te
-    oks = [(i, st) for i, j, st in f.iter_stmts() if st["k"] == "assign" and st["rv"].get("k") == "agg" and st["rv"].get("agg") == "adt"
-           and norm(st["rv"]["adt"]).endswith("result::Result") and st["rv"].get("variant") == "Ok"]
-    chk.floor(R, "Ok results of value_as_locale", len(oks), 1, f"{f.file}:{f.line}")
-    for n, (i, st) in enumerate(oks):
-        e = resolve(f, st["rv"]["ops"][0])
-        dial = e[4][1][1] if e[0] == "agg" and e[1] == "tuple" and len(e[4]) == 2 else None
-        doms = [b for b, te in true_edges.items() if any(f.edge_dominates(x, i) for x in te)]
-        no_dialect = dial is not None and dial[0] == "agg" and dial[1] == "adt" and dial[3] == "None"
-        need = 1 if no_dialect else 2
-        chk.expect(len(doms) >= need, R, f"value_as_locale|Ok#{n}", f"{f.file}:{st.get('line')}",
-                   f"a locale is accepted under {len(doms)} successful validate test(s) where {need} are needed ({'language only' if no_dialect else 'language and dialect'}): "
-                   "a malformed language or dialect part would be accepted or silently dropped instead of refused",
-                   sample=f"{f.file}:{st.get('line')}: Ok under {need} validate(..) == true")
-    vs = [g for g in F.find("metadata::value_as_locale::validate") if not g.is_closure()]
+    # the part test: the nested bool-returning helper of value_as_locale (whatever it is called)
+    vs = [g for k, g in F.funcs.items() if k.startswith(f.key + "::") and not g.is_closure() and "{closure" not in k and norm(g.local_ty(0)) == "bool"]
     if len(vs) != 1:
-        chk.fail("anchor-missing", "value_as_locale::validate", "", "anchor-missing: value_as_locale::validate not found")
+        chk.fail("anchor-missing", "value_as_locale::validate", f"{f.file}:{f.line}", f"anchor-missing: the two-letter test of value_as_locale (nested fn returning bool) found {len(vs)} times")
         return
     v = vs[0]
+    tests = []          # (block, dest local, is_dialect_test)
+    for b, t in f.calls():
+        k = callee_key(t) or ""
+        arg0 = None
+        if k == v.key:
+            arg0 = t["args"][0]
+        elif k.endswith(("Option::<T>::map_or", "Option::<T>::is_some_and", "Option::<T>::is_none_or")) and any(
+                ((a.get("const") or {}).get("fn") or {}).get("def", "").endswith(v.key.split("::", 1)[1]) or
+                norm(((a.get("const") or {}).get("fn") or {}).get("rdef", "") or "") == v.key for a in t["args"]):
+            arg0 = t["args"][0]
+        if arg0 is None or t["dest"]["p"]:
+            continue
+        txt = " | ".join(show(x, -80) for x in _tuple_alternatives(resolve(f, arg0)))
+        tests.append((b, t["dest"]["l"], ".1" in txt))
+    chk.floor(R, "two-letter tests in value_as_locale", len(tests), 1, f"{f.file}:{f.line}")
+    accepts = []
+    for i, j, st in f.iter_stmts():
+        rv = st.get("rv", {})
+        if st["k"] == "assign" and rv.get("k") == "agg" and rv.get("agg") == "adt" and (
+                (norm(rv["adt"]).endswith("result::Result") and rv.get("variant") == "Ok") or
+                (norm(rv["adt"]).endswith("option::Option") and rv.get("variant") == "Some" and "Option<&str>)" in " ".join(rv.get("targs", [])))):
+            e = resolve(f, rv["ops"][0])
+            if e[0] == "agg" and e[1] == "tuple" and len(e[4]) == 2:
+                accepts.append((i, st, e))
+    chk.floor(R, "accepting results of value_as_locale", len(accepts), 1, f"{f.file}:{f.line}")
+    for n, (i, st, e) in enumerate(accepts):
+        dial = e[4][1][1]
+        no_dialect = dial[0] == "agg" and dial[1] == "adt" and dial[3] == "None"
+        where = f"{f.file}:{st.get('line')}"
+        w = path_without_success(f, i, [d for _, d, isd in tests if not isd])
+        chk.expect(w is None, R, f"value_as_locale|accept#{n}|language", where,
+                   f"a locale can be accepted without a successful two-letter test of its language part (path through lines "
+                   f"{sorted({f.blocks[x]['term'].get('line') for x in (w or []) if f.blocks[x]['term'].get('line')})[:8]})",
+                   sample=f"{where}: every path to this result has seen the language test succeed")
+        if not no_dialect:
+            dt = [d for _, d, isd in tests if isd]
+            w = path_without_success(f, i, dt) if dt else [i]
+            chk.expect(w is None, R, f"value_as_locale|accept#{n}|dialect", where,
+                       "a locale that can carry a dialect is accepted on a path where the dialect part was not successfully tested: a malformed dialect "
+                       "would be accepted or silently dropped instead of refused" + ("" if dt else " (no test of the dialect part exists)"),
+                       sample=f"{where}: every path to this result has seen the dialect test succeed")
     eq2 = any(st["k"] == "assign" and st["rv"].get("k") == "bin" and st["rv"].get("op") == "Eq" and
               any(str((st["rv"][x].get("const") or {}).get("bits")) == "2" for x in ("l", "r")) for _, _, st in v.iter_stmts())
     inner = [callee_key(t) or "" for g in F.region_funcs(v.key) for _, t in g.calls()]
@@ -133,8 +180,26 @@ def d7_minutes_is_time(chk, F):
         if any("PhysicalQuantity::Time" in x for x in txt) and any("find_unit" in x or "physical_quantity" in x for x in txt):
             te, fe = call_result_edges(f, b)
             is_time += fe if m.group(1) == "ne" else te
+    def filtered_by_time(c):
+        # `find_unit(..).filter(|u| u.physical_quantity == Time).ok_or(..)?`: the test runs inside Option::filter on the looked-up unit
+        t = f.blocks[c]["term"]
+        for a in range(len(t.get("args", []))):
+            for n in walk(arg_expr(f, t, a)):
+                if n[0] == "call" and n[1].endswith("Option::<T>::filter"):
+                    for m_ in walk(n):
+                        if m_[0] == "agg" and m_[1] == "closure" and m_[2] in F.funcs:
+                            g = F.funcs[m_[2]]
+                            for gb, gt in g.calls():
+                                gk = callee_key(gt) or ""
+                                gd = (gt.get("callee") or {}).get("def", "")
+                                if (re.search(r"PartialEq(?:<[^>]*>)?>?::eq$", gk) or re.search(r"PartialEq::eq$", gd)) and len(gt.get("args", [])) == 2:
+                                    txt = [full(arg_expr(g, gt, 0)), full(arg_expr(g, gt, 1))]
+                                    if any("PhysicalQuantity::Time" in x for x in txt) and any("physical_quantity" in x for x in txt) and \
+                                            gt["dest"]["l"] == 0 and not gt["dest"]["p"]:
+                                        return True
+        return False
     for c in conv:
-        chk.expect(any(f.edge_dominates(e_, c) for e_ in is_time), "C13.D7-minutes-is-time", "dynamic_time_units|convert", f.where(c),
+        chk.expect(any(f.edge_dominates(e_, c) for e_ in is_time) or filtered_by_time(c), "C13.D7-minutes-is-time", "dynamic_time_units|convert", f.where(c),
                    "the unit found under the name of minutes is used as conversion target without having been tested to be a Time unit",
                    sample=f"{f.where(c)}: convert(.., minutes) dominated by minutes.physical_quantity == Time")
 
